@@ -86,7 +86,8 @@ def build(job):
         n = params["rows"]
         a = [eng.var(f"a{i}") for i in range(n)]
         b = [eng.var(f"b{i}") for i in range(n)]
-        use_target = eng.flag("target_column")
+        target = eng.choice("target_column", [None, "c", 0, ""])      # including labels that are falsy
+        use_target = target is not None
         if eng.mods.symbolic:
             from .. import stubs
             df = stubs.DataFrame({"a": a, "b": b})
@@ -104,7 +105,7 @@ def build(job):
         want = scalar_results(scalar_for(conv, op, ambiguous), b, strict, passthrough)
         kw = dict(column="b", strict=strict, passthrough=passthrough)
         if use_target:
-            kw["target_column"] = "c"
+            kw["target_column"] = target
         if op in ("compress", "expand"):
             kw["ambiguous"] = ambiguous
         method = getattr(conv, f"pd_{op}")
@@ -118,7 +119,7 @@ def build(job):
             eng.expect(first is not None and first[1] == type(e).__name__, f"pd_{op} raised {type(e).__name__} although the scalar calls do not")
             return "raised"
         eng.expect(all(w[0] == "value" for w in want), f"pd_{op} did not raise although a scalar call does")
-        got = col("c" if use_target else "b")
+        got = col(target if use_target else "b")
         eng.expect(got is not None and len(got) == n and all(_val_eq(g, w[1]) for g, w in zip(got, want) if w[0] == "value"),
                    f"pd_{op}: the column is not the element-wise scalar result")
         eng.expect(list_eq(col("a"), a) and (not use_target or list_eq(col("b"), b)), f"pd_{op} changed another column (or the source column despite target_column)")
